@@ -54,6 +54,22 @@ const FRAGMENTS: &[Fragment] = &[
     Fragment { id: "code-naming-a-type", lines: &["see `rec-type` x~"], html_texts: &[&["see rec-type x~", "see `rec-type` x~"]], block_ok: true },
     Fragment { id: "link-around-code-naming-a-type", lines: &["[`rec-type`](u) y~"], html_texts: &[&["rec-type y~", "[`rec-type`](u) y~"]], block_ok: true },
     Fragment { id: "code-naming-a-field", lines: &["`rec-type::fld-one` z~"], html_texts: &[&["rec-type::fld-one z~", "`rec-type::fld-one` z~"]], block_ok: true },
+    Fragment { id: "ref-full-plain", lines: &["[txt~][lbl~] w~", "", "[lbl~]: https://full.example/p"], html_texts: &[&["txt~ w~", "[txt~][lbl~] w~"], &["", "[lbl~]: https://full.example/p"]], block_ok: true },
+    Fragment { id: "ref-collapsed-plain", lines: &["[txt~][] v~", "", "[txt~]: https://collapsed.example/p"], html_texts: &[&["txt~ v~", "[txt~][] v~"], &["", "[txt~]: https://collapsed.example/p"]], block_ok: true },
+    Fragment { id: "ref-shortcut-plain", lines: &["[txt~] u~", "", "[txt~]: https://shortcut.example/p"], html_texts: &[&["txt~ u~", "[txt~] u~"], &["", "[txt~]: https://shortcut.example/p"]], block_ok: true },
+    Fragment { id: "ref-full-code-type", lines: &["[`rec-type`][lbl~] w~", "", "[lbl~]: https://full.example/p"], html_texts: &[&["rec-type w~", "[`rec-type`][lbl~] w~"], &["", "[lbl~]: https://full.example/p"]], block_ok: true },
+    Fragment { id: "ref-collapsed-code-type", lines: &["[`rec-type`][] v~", "", "[`rec-type`]: https://collapsed.example/p"], html_texts: &[&["rec-type v~", "[`rec-type`][] v~"], &["", "[`rec-type`]: https://collapsed.example/p"]], block_ok: true },
+    Fragment { id: "ref-shortcut-code-type", lines: &["[`rec-type`] u~", "", "[`rec-type`]: https://shortcut.example/p"], html_texts: &[&["rec-type u~", "[`rec-type`] u~"], &["", "[`rec-type`]: https://shortcut.example/p"]], block_ok: true },
+    Fragment { id: "ref-full-code-field", lines: &["[`rec-type::fld-one`][lbl~] w~", "", "[lbl~]: https://full.example/p"], html_texts: &[&["rec-type::fld-one w~", "[`rec-type::fld-one`][lbl~] w~"], &["", "[lbl~]: https://full.example/p"]], block_ok: true },
+    Fragment { id: "ref-collapsed-code-field", lines: &["[`rec-type::fld-one`][] v~", "", "[`rec-type::fld-one`]: https://collapsed.example/p"], html_texts: &[&["rec-type::fld-one v~", "[`rec-type::fld-one`][] v~"], &["", "[`rec-type::fld-one`]: https://collapsed.example/p"]], block_ok: true },
+    Fragment { id: "ref-shortcut-code-field", lines: &["[`rec-type::fld-one`] u~", "", "[`rec-type::fld-one`]: https://shortcut.example/p"], html_texts: &[&["rec-type::fld-one u~", "[`rec-type::fld-one`] u~"], &["", "[`rec-type::fld-one`]: https://shortcut.example/p"]], block_ok: true },
+    Fragment { id: "ref-full-code-func", lines: &["[`do-it`][lbl~] w~", "", "[lbl~]: https://full.example/p"], html_texts: &[&["do-it w~", "[`do-it`][lbl~] w~"], &["", "[lbl~]: https://full.example/p"]], block_ok: true },
+    Fragment { id: "ref-collapsed-code-func", lines: &["[`do-it`][] v~", "", "[`do-it`]: https://collapsed.example/p"], html_texts: &[&["do-it v~", "[`do-it`][] v~"], &["", "[`do-it`]: https://collapsed.example/p"]], block_ok: true },
+    Fragment { id: "ref-shortcut-code-func", lines: &["[`do-it`] u~", "", "[`do-it`]: https://shortcut.example/p"], html_texts: &[&["do-it u~", "[`do-it`] u~"], &["", "[`do-it`]: https://shortcut.example/p"]], block_ok: true },
+    Fragment { id: "ref-full-code-iface", lines: &["[`a:b/imp`][lbl~] w~", "", "[lbl~]: https://full.example/p"], html_texts: &[&["a:b/imp w~", "[`a:b/imp`][lbl~] w~"], &["", "[lbl~]: https://full.example/p"]], block_ok: true },
+    Fragment { id: "ref-collapsed-code-iface", lines: &["[`a:b/imp`][] v~", "", "[`a:b/imp`]: https://collapsed.example/p"], html_texts: &[&["a:b/imp v~", "[`a:b/imp`][] v~"], &["", "[`a:b/imp`]: https://collapsed.example/p"]], block_ok: true },
+    Fragment { id: "ref-shortcut-code-iface", lines: &["[`a:b/imp`] u~", "", "[`a:b/imp`]: https://shortcut.example/p"], html_texts: &[&["a:b/imp u~", "[`a:b/imp`] u~"], &["", "[`a:b/imp`]: https://shortcut.example/p"]], block_ok: true },
+    Fragment { id: "autolink", lines: &["<https://x~.example/p> q~"], html_texts: &[&["https://x~.example/p q~", "q~"]], block_ok: true },
     Fragment { id: "block-comment-markers", lines: &["/* c~ * /"], html_texts: &[&["/* c~ * /"]], block_ok: false },
 ];
 
